@@ -2,6 +2,7 @@ package main
 
 import (
 	"fmt"
+	"go/token"
 	"go/types"
 	"strings"
 
@@ -109,5 +110,106 @@ func init() {
 			}
 		}
 		return res
+	}
+}
+
+// C18: sources of nondeterminism and shared mutable state, decided structurally over the SSA of every
+// function of the module (the SMT side of C18 are the `frame` obligations of every function under
+// contract: each store stays inside the function's modifies clause or goes to an object allocated
+// during the call).
+var pureStdPackages = map[string]bool{"fmt": true, "strings": true, "strconv": true, "unicode": true, "unicode/utf8": true, "bytes": true, "errors": true, "iter": true, "slices": true, "maps": false, "sort": true}
+
+func init() {
+	auxEngines["C18"] = func(g *Gen, id, tier string) auxResult {
+		res := auxResult{}
+		report := func(name, what string, pos token.Position) {
+			res.violations++
+			oname := name + "/det-sources"
+			path := writeReplayText(id, sanitize(oname), fmt.Sprintf("property: %s\nobligation: %s\n%s at %s:%d\nno-failing-input-found\n", id, oname, what, shortFile(pos.Filename), pos.Line))
+			fmt.Printf("VIOLATION property=%s replay=%s no-failing-input-found\n  %s: %s at %s:%d\n", id, path, name, what, shortFile(pos.Filename), pos.Line)
+		}
+		for _, name := range sortedKeys(g.funcs) {
+			fn := g.funcs[name]
+			if fn.Pkg == nil || !strings.HasPrefix(fn.Pkg.Pkg.Path(), modPath) || strings.Contains(fn.Pkg.Pkg.Path(), "/tools") || len(fn.Blocks) == 0 {
+				continue
+			}
+			isInit := fn.Name() == "init" || strings.HasPrefix(fn.Name(), "init#")
+			res.obligations++
+			bad := 0
+			for _, b := range fn.Blocks {
+				for _, in := range b.Instrs {
+					pos := g.prog.Fset.Position(in.Pos())
+					switch x := in.(type) {
+					case *ssa.Go:
+						report(name, "starts a goroutine", pos)
+						bad++
+					case *ssa.Select, *ssa.Send, *ssa.MakeChan:
+						report(name, "uses channels", pos)
+						bad++
+					case *ssa.UnOp:
+						if x.Op == token.ARROW {
+							report(name, "receives from a channel", pos)
+							bad++
+						}
+					case *ssa.Range:
+						if _, isMap := x.X.Type().Underlying().(*types.Map); isMap {
+							report(name, "iterates over a map (order is not deterministic)", pos)
+							bad++
+						}
+					case *ssa.MapUpdate:
+						if !isInit {
+							if root := addrRootVal(x.Map); root != nil {
+								if _, isG := root.(*ssa.Global); isG {
+									report(name, "writes a package-level map outside init", pos)
+									bad++
+								}
+							}
+						}
+					case *ssa.Store:
+						if !isInit {
+							if _, isG := addrRoot(x.Addr).(*ssa.Global); isG {
+								report(name, "writes a package-level variable outside init", pos)
+								bad++
+							}
+						}
+					case ssa.CallInstruction:
+						if callee := x.Common().StaticCallee(); callee != nil && callee.Pkg != nil {
+							pp := callee.Pkg.Pkg.Path()
+							if !strings.HasPrefix(pp, modPath) && !pureStdPackages[pp] {
+								report(name, "calls "+callee.String()+" (package "+pp+" is not on the list of pure library packages)", pos)
+								bad++
+							}
+						}
+					}
+				}
+			}
+			if bad == 0 {
+				res.discharged++
+				if len(res.samples) < 3 {
+					res.samples = append(res.samples, name+"/det-sources: no goroutine, channel, map iteration, global write or impure library call -> ok")
+				}
+			}
+		}
+		return res
+	}
+	propertyAssumptions["C18"] = []string{
+		"functions that write only memory allocated during the call or reachable from their receiver/arguments as listed in their modifies clause, and read only their arguments and package-level values that nothing writes after init, are deterministic functions of their arguments; two calls on distinct Parser values have disjoint write footprints, hence no data race under any schedule: this meta-argument is stated, not mechanised; no schedule is explored and the race detector is not run",
+		"package-level variables are written only by init functions (checked structurally); their values are modelled as constants",
+		"the standard-library packages fmt, strings, strconv, unicode, unicode/utf8, bytes, errors, sort are deterministic and keep no state that the called functions mutate",
+	}
+}
+
+func addrRootVal(v ssa.Value) ssa.Value {
+	for {
+		switch x := v.(type) {
+		case *ssa.UnOp:
+			v = x.X
+		case *ssa.FieldAddr:
+			v = x.X
+		case *ssa.IndexAddr:
+			v = x.X
+		default:
+			return v
+		}
 	}
 }
